@@ -216,7 +216,10 @@ Definition offer (c : cfg) (p : nat) (sz : Z) (s : st) : st * Z :=
       else if sz <=? 0 then (setp p (PRet RInvalid) s, c_invalid)
       else if sz >? cap c then (setp p (PRet RTooLarge) s, c_toolarge)
       else try_add c p sz s
-  | Pers => try_add c p sz s                                        (* no pre-checks at all *)
+  | Pers =>   (* fix f7a3004ea: with block_on_overflow a request larger than the capacity is refused (errSizeTooLarge)
+                 instead of waiting for space that cannot come; no other pre-check (zero / negative sizes pass) *)
+      if blocking c && (sz >? cap c) then (setp p (PRet RTooLarge) s, c_toolarge)
+      else try_add c p sz s
   end.
 
 (* ---- Read ----------------------------------------------------------------------------------- *)
@@ -250,7 +253,7 @@ Definition read (c : cfg) (s : st) : option (st * Z) :=
    (persistent queue, [corrupt] non-empty) getNextItem fails on unreadable items: they are dropped (never handed
    over, their size is NOT released) and the loop goes on; whenever the read index catches up with the write index
    — after a consumed OR a dropped item — the size is reset to 0 and hasMoreSpace is signalled. *)
-Definition c_parked : Z := 30.
+Definition c_parked : Z := 4.   (* per-label code: a Read that parks (10 + id would collide with id 20) *)
 
 Fixpoint skipbad (bad : list nat) (its : list (nat * Z)) : list (nat * Z) * list (nat * Z) :=
   match its with
@@ -330,8 +333,10 @@ Inductive label :=
 | LOfferF (p : nat) (sz : Z) (k : Z).
                                 (* persistent queue: Offer of a request whose Encoding.Marshal fails (k = c_marshal) or whose
                                    storage write fails (k = c_storeerr).  putInternal runs its capacity loop first; past it,
-                                   both error paths return the error and change nothing.  With block_on_overflow a
-                                   faulty request that does not fit parks like any other ([faulty] remembers it). *)
+                                   both error paths return the error, change nothing, and call hasMoreSpace.Signal().
+                                   With block_on_overflow a faulty request that does not fit parks like any other
+                                   ([faulty] remembers it).  Part of [reachable] since the repair of the finding
+                                   C02-FAULTY-WAITER-STEALS-WAKEUP. *)
 
 Definition lock_free (s : st) : bool := match lock s with Free => true | _ => false end.
 
@@ -372,9 +377,9 @@ Definition step (c : cfg) (s : st) (l : label) : option (st * Z) :=
         | Some (PLeftTok sz) =>
             match find_id p (faulty s) with
             | Some k =>   (* a parked producer whose request cannot be stored: past the capacity loop it returns its
-                             error; the wake-up it consumed is NOT passed on (no Signal on the error paths) *)
+                             error and passes the wake-up on: hasMoreSpace.Signal() on both error paths (fix 03fbf1134) *)
                 if size s + sz >? cap c then Some (try_add c p sz s)
-                else Some (setp p (PRet (RErr k)) s, k)
+                else Some (signal PendNone (setp p (PRet (RErr k)) s), k)
             | None => Some (try_add c p sz s)
             end
         | _ => None
@@ -427,11 +432,12 @@ Definition step (c : cfg) (s : st) (l : label) : option (st * Z) :=
       if lock_free s then
         match pget p (prods s), kind c with
         | None, Pers =>
-            if size s + sz >? cap c then
+            if blocking c && (sz >? cap c) then Some (setp p (PRet RTooLarge) s, c_toolarge)   (* before Marshal *)
+            else if size s + sz >? cap c then
               if blocking c
               then Some (set_faulty (faulty s ++ [(p, k)]) (setp p (PInSelect sz) (set_waiting (waiting s + 1) s)), c_blocked)
               else Some (setp p (PRet RFull) s, c_full)
-            else Some (setp p (PRet (RErr k)) s, k)
+            else Some (signal PendNone (setp p (PRet (RErr k)) s), k)   (* error paths Signal (a no-op without waiters) *)
         | _, _ => None
         end
       else None
@@ -458,7 +464,7 @@ Definition wf_label (c : cfg) (l : label) : Prop :=
   | LOffer _ sz => kind c = Pers -> 0 <= sz
   | LBroadcast => False            (* never issued by the queues *)
   | LCorrupt _ => False            (* storage faults are outside the property's theorems (Proofs8: what is proved) *)
-  | LOfferF _ _ _ => False
+  | LOfferF _ sz _ => 0 <= sz
   | _ => True
   end.
 
@@ -558,5 +564,6 @@ Definition fate (p : nat) (s : st) : Prop :=
   | Some (PLeftCtx _) => In p (cancelled s)
   | Some PAwait | Some (PRet ROk) | Some (PRet (RRes _)) => In p (acc s)
   | Some (PRet RCtx) => In p (cancelled s)
+  | Some (PRet (RErr _)) => find_id p (faulty s) <> None     (* only a producer whose request cannot be stored *)
   | _ => False
   end.
